@@ -667,3 +667,125 @@ def surplus_forwarded_only(ctx: "Ctx", t: FuncInfo, benv, names: Set[str], targe
             if not (pc.kind == "pkg" and pc.targets and all(x.name in target_names for x in pc.targets)):
                 return False
     return not any(n in tsc.defs for n in names)
+
+
+_PLAIN_DECORATORS = {"property", "staticmethod", "classmethod", "overload", "abstractmethod", "final", "override", "wraps", "contextmanager", "asynccontextmanager",
+                     "abstractproperty", "no_type_check", "deprecated", "dataclass"}
+_MEMO_DECORATORS = {"lru_cache", "cache", "cached_property", "singledispatch", "singledispatchmethod"}
+
+
+def r_decorated(ctx: "Ctx", rule: str = "R00.D") -> None:
+    """WHAT-RUNS: every function this check analysed is what its callers actually run.  A decorator that replaces the function by a
+    wrapper is accepted only when the wrapper is transparent: it runs the function exactly once on every path, with the caller's
+    arguments, (awaited iff it is a coroutine function) and hands back its result.  Anything else - a wrapper that may skip, repeat,
+    share or defer the call, a memoising decorator - means the rules looked at code that is not what runs."""
+    rep = ctx.rep
+    rep.rule(rule, "WHAT-RUNS: no analysed function is replaced by a non-transparent decorator wrapper (the verdicts of the other rules are about "
+                   "the undecorated bodies)")
+    quals = set(ctx.an._cfgs) | {t for _r, t, _c in ctx.an.inlined_calls}
+    n = 0
+    for q in sorted(quals):
+        f = ctx.prog.functions.get(q)
+        if f is None or not getattr(f.node, "decorator_list", None):
+            continue
+        for d in f.node.decorator_list:
+            core = d.func if isinstance(d, ast.Call) else d
+            name = core.attr if isinstance(core, ast.Attribute) else (core.id if isinstance(core, ast.Name) else "")
+            if name in _PLAIN_DECORATORS or (isinstance(core, ast.Attribute) and core.attr in ("setter", "getter", "deleter")):
+                continue
+            n += 1
+            if name in _MEMO_DECORATORS:
+                rep.ob(rule, "an analysed function is not memoised / re-dispatched by a decorator", False, func=f, construct=f"@{ast.unparse(d)}",
+                       detail="calls with equal arguments share one execution: the body the rules analysed runs at most once per argument tuple")
+                continue
+            dec = None
+            if isinstance(core, ast.Name):
+                try:
+                    qn = ctx.prog.resolve_name_in_module(f.module, core)
+                except Exception:
+                    qn = None
+                dec = next((x for x in ctx.prog.all_functions() if x.name == core.id and x.parent is None and x.cls is None
+                            and (qn is None or qn.endswith("." + x.qual.rpartition(".")[2]))), None)
+            why = _transparent_wrapper(ctx, dec, f) if dec is not None else "the decorator is not a function of the package and not known to be transparent"
+            rep.ob(rule, "a decorator on an analysed function only wraps it transparently (runs it exactly once with the caller's arguments and returns its result)",
+                   why is None, func=f, construct=f"@{ast.unparse(d)}", detail=why or "")
+    rep.analysed.setdefault("decorators", {})["checked"] = n
+    # the same question for the other ways of swapping what runs: re-binding a method, attribute hooks, class decorators / metaclasses
+    stores: Dict[str, List[Tuple[str, ast.AST]]] = {}
+    for m in ctx.prog.modules.values():
+        for x in ast.walk(m.tree):
+            if isinstance(x, ast.Attribute) and not isinstance(x.ctx, ast.Load):
+                stores.setdefault(x.attr, []).append((m.relpath, x))
+    classes = {}
+    for q in sorted(quals):
+        f = ctx.prog.functions.get(q)
+        if f is None or f.cls is None:
+            continue
+        classes[f.cls.qual] = f.cls
+        if f.kind in ("property", "setter"):
+            continue
+        for rel, x in stores.get(f.name, []):
+            rep.ob(rule, "no analysed method is re-bound after its definition (on the class or on an instance)", False, func=f,
+                   construct=f"{rel}:{x.lineno}: {ast.unparse(x)} = ...", detail=f"`{f.name}` is assigned as an attribute: callers may run something else than the method analysed")
+    for c in classes.values():
+        hooks = [h for h in ("__getattr__", "__getattribute__", "__setattr__") if h in c.methods]
+        rep.ob(rule, "classes of analysed methods define no attribute hooks", not hooks, construct=f"class {c.name}", detail=", ".join(hooks))
+        bad_dec = [ast.unparse(d) for d in c.node.decorator_list
+                   if (d.func if isinstance(d, ast.Call) else d) is not None
+                   and ((lambda core: core.attr if isinstance(core, ast.Attribute) else getattr(core, "id", ""))(d.func if isinstance(d, ast.Call) else d)) not in ("dataclass", "final", "total_ordering", "runtime_checkable")]
+        bad_meta = [ast.unparse(k.value) for k in c.node.keywords if k.arg == "metaclass" and ast.unparse(k.value).rpartition(".")[2] not in ("ABCMeta",)]
+        rep.ob(rule, "classes of analysed methods are not rewritten by a class decorator or a custom metaclass", not bad_dec and not bad_meta, construct=f"class {c.name}",
+               detail=", ".join(bad_dec + bad_meta))
+
+
+def _transparent_wrapper(ctx: "Ctx", dec: FuncInfo, f: FuncInfo) -> Optional[str]:
+    """None when decorator `dec` returns a wrapper that runs the decorated function exactly once, forwarding the caller's arguments,
+    and returns its value; else the reason it is not transparent"""
+    params = [p for p in dec.param_names()]
+    if len(params) != 1:
+        return "decorator factories / multi-parameter decorators are not understood"
+    mparam = params[0]
+    inner = [x for x in dec.node.body if isinstance(x, (ast.FunctionDef, ast.AsyncFunctionDef))]
+    if len(inner) != 1:
+        return "the decorator does not define exactly one wrapper function"
+    w = inner[0]
+    rets = [r for r in ast.walk(dec.node) if isinstance(r, ast.Return) and not any(r in ast.walk(i) for i in inner)]
+    if len(rets) != 1 or not (isinstance(rets[0].value, ast.Name) and rets[0].value.id == w.name):
+        return "the decorator does not simply return its wrapper"
+    if isinstance(w, ast.AsyncFunctionDef) != f.is_async:
+        return "the wrapper is not the same kind of function (coroutine function vs plain function) as what it wraps"
+    wf = next((x for x in ctx.prog.all_functions() if x.node is w), None)
+    if wf is None:
+        return "the wrapper function was not found in the program model"
+    calls = [c for c in ast.walk(w) if isinstance(c, ast.Call) and isinstance(c.func, ast.Name) and c.func.id == mparam]
+    in_decorators = {id(x) for d_ in w.decorator_list for x in ast.walk(d_)}  # (`@wraps(method)` on the wrapper is fine)
+    meta_reads = {id(x.value) for x in ast.walk(w) if isinstance(x, ast.Attribute) and isinstance(x.ctx, ast.Load) and x.attr.startswith("__")}  # method.__name__
+    other_uses = [x for x in ast.walk(w) if isinstance(x, ast.Name) and x.id == mparam and not any(x is c.func for c in calls) and id(x) not in in_decorators
+                  and id(x) not in meta_reads]
+    if len(calls) != 1:
+        return f"the wrapper calls the wrapped function at {len(calls)} places (expected exactly one)"
+    if other_uses:
+        return "the wrapper hands the wrapped function on instead of just calling it"
+    call = calls[0]
+    a = w.args
+    pos = [p.arg for p in a.posonlyargs + a.args]
+    fwd_ok = [ast.unparse(x) for x in call.args] == pos + (["*" + a.vararg.arg] if a.vararg else []) \
+        and [(k.arg, ast.unparse(k.value)) for k in call.keywords] == [(p.arg, p.arg) for p in a.kwonlyargs] + ([(None, a.kwarg.arg)] if a.kwarg else [])
+    if not fwd_ok:
+        return "the wrapper does not forward exactly its own arguments to the wrapped function"
+    g = ctx.an.cfg(wf)
+    cn = [n for n in g.nodes if n.op == "call" and n.ast is call]
+    res = count_paths(ctx.an, wf, lambda n: n in cn, interproc=False)
+    normal = res.get(("ret", None), frozenset())
+    if normal != frozenset({1}):
+        return f"on some path the wrapper runs the wrapped function {sorted(normal)} times before returning (expected exactly once)"
+    # the value returned is the (awaited) call
+    for r in [r for r in ast.walk(w) if isinstance(r, ast.Return)]:
+        v = r.value
+        leaves = ctx.vals.leaves(wf, None, v) if v is not None else []
+        ok = bool(leaves) and all((isinstance(x, ast.Await) and strip_cast(x.value) is call) if f.is_async else (x is call) for _f, _e, x in leaves)
+        if not ok:
+            return "the wrapper does not return the result of the wrapped function"
+    if f.is_async and not any(isinstance(x, ast.Await) and strip_cast(x.value) is call for x in ast.walk(w)):
+        return "the wrapper does not await the wrapped coroutine function directly (the call is deferred / shared)"
+    return None
